@@ -30,6 +30,7 @@ POSITIONS = {
     "method": ("total", "value"),
     "class": ("Tank", "type"),
     "class_field": ("level", "value"),
+    "class_field_default": ("spare", "value"),
     "mut_method": ("fill", "value"),
     "method_param": ("amount", "value"),
     "function": ("classify", "value"),
